@@ -395,6 +395,14 @@ func traceCorpus() []spanBatch {
 	// interleaved resources and scopes: r1/a r3/a r1/b r3/a r1/a (last span of a group after a new resource started)
 	out = append(out, spanBatch{stubs: tracetest.SpanStubs{mk(1, "s1", res1, scA), mk(2, "s2", res3, scA), mk(3, "s3", res1, scB), mk(4, "s4", res3, scA), mk(5, "s5", res1, scA)},
 		resources: []*resource.Resource{res1, res3}, scopes: []instrumentation.Scope{scA, scB}, ri: []int{0, 1, 0, 1, 0}, si: []int{0, 0, 1, 0, 0}})
+	// scopes that differ in exactly one field (attributes / version / schema URL / name) under one resource
+	scV := instrumentation.Scope{Name: "lib/a", Version: "v2"}
+	scU := instrumentation.Scope{Name: "lib/a", Version: "v1", SchemaURL: "urn:s"}
+	scT1 := instrumentation.Scope{Name: "lib/a", Version: "v1", Attributes: attribute.NewSet(attribute.String("tenant", "a"))}
+	scT2 := instrumentation.Scope{Name: "lib/a", Version: "v1", Attributes: attribute.NewSet(attribute.String("tenant", "b"))}
+	out = append(out, spanBatch{stubs: tracetest.SpanStubs{mk(1, "a", res1, scA), mk(2, "v", res1, scV), mk(3, "u", res1, scU), mk(4, "t1", res1, scT1),
+		mk(5, "t2", res1, scT2), mk(6, "b", res1, scB), mk(7, "t1'", res1, scT1), mk(8, "a'", res1, scA)},
+		resources: []*resource.Resource{res1}, scopes: []instrumentation.Scope{scA, scV, scU, scT1, scT2, scB}, ri: []int{0, 0, 0, 0, 0, 0, 0, 0}, si: []int{0, 1, 2, 3, 4, 5, 3, 0}})
 	// status table, parent, dropped-count clamps
 	a := mk(1, "err", res3, instrumentation.Scope{})
 	a.Status = tracesdk.Status{Code: codes.Error, Description: "boom"}
